@@ -131,6 +131,54 @@ def run(ctx) -> list[Inst]:
                  "; ANTLR's default listener only prints and recovers, so a malformed file yields a "
                  "specification assembled from the fragments that parsed"),
             file=rel, line=parse_node.lineno, props=props))
+    # (a3) compile() is re-entered for every include (through the visitor): per-compilation error state
+    # must not be reset inside it while an outer invocation still has to test it
+    resets = []
+    for n in own_nodes(f.node):
+        if isinstance(n, ast.Assign) and isinstance(n.targets[0], ast.Attribute) \
+                and isinstance(n.targets[0].value, ast.Name) and n.targets[0].value.id == f.self_name \
+                and isinstance(n.value, (ast.List, ast.Dict, ast.Constant)) \
+                and (not isinstance(n.value, ast.Constant) or n.value.value in (0, None, False)):
+            attr = n.targets[0].attr
+            rnode = cfg.node_of(n)
+            for g in cfg.nodes:
+                if g.kind == 'if' and f'{f.self_name}.{attr}' in stmt_text(g.ast.test) \
+                        and cfg.dominates(parse_node, g) and (_always_raises(cfg, g, 'T') or _always_raises(cfg, g, 'F')):
+                    resets.append((n, attr, g))
+    if resets:
+        n, attr, g = resets[0]
+        insts.append(Inst(
+            RULE, f.short, f'(a) error state self.{attr} is not reset inside the re-entrant compile()', 'violation',
+            msg=(f"'{stmt_text(n)}' resets the error state on every entry of compile(), and compile() is re-entered "
+                 f"for each include while the visitor runs - before 'if {stmt_text(g.ast.test)}' of the outer call: "
+                 f"errors of a file that includes a clean file are forgotten and the malformed file is accepted"),
+            file=rel, line=n.lineno, props=props))
+    # (a4) lexer errors (characters that form no token) must surface as well
+    lexer_var = None
+    for n in own_nodes(f.node):
+        if isinstance(n, ast.Assign) and isinstance(n.value, ast.Call) and isinstance(n.value.func, ast.Name) \
+                and n.value.func.id == 'malLexer' and isinstance(n.targets[0], ast.Name):
+            lexer_var = n.targets[0].id
+    if lexer_var is not None and (idiom or other_handling):
+        lex_ok = False
+        for n in own_nodes(f.node):
+            if isinstance(n, ast.Call) and isinstance(n.func, ast.Attribute) and n.func.attr == 'addErrorListener' \
+                    and isinstance(n.func.value, ast.Name) and n.func.value.id == lexer_var and n.args:
+                cname = _class_of(ctx, f, n.args[0], cfg.owner(n))
+                c = prog.classes.get(cname) if cname else None
+                m = prog.find_method(c.name, 'syntaxError') if c is not None else None
+                if m is not None:
+                    lex_ok = True
+        construct = '(a) lexer errors (characters that form no token) are reported too'
+        if lex_ok:
+            insts.append(Inst(RULE, f.short, construct, 'ok', file=rel, line=parse_node.lineno, props=props))
+        else:
+            insts.append(Inst(
+                RULE, f.short, construct, 'violation',
+                msg=("parser errors are handled but no error listener of the package is attached to the lexer: "
+                     "characters that form no MAL token are printed by ANTLR's default listener and dropped, "
+                     "parser.getNumberOfSyntaxErrors() does not count them, and the remaining tokens compile"),
+                file=rel, line=parse_node.lineno, props=props))
     # same entry point for includes / no second parser construction
     others = []
     for g in prog.all_funcs():
